@@ -810,6 +810,7 @@ def parse_out(line):
             if item:
                 k, c = item.split(':', 1); d['Kc'][int(k)] = c
     d['site_list'] = [x for x in d.get('sites', '').split(',') if x]
+    d['ctx_list'] = [[x for x in c.split(',') if x] for c in d.get('ctx', '').split('|') if c]
     d['stack_map'] = {}
     for item in d.get('stacks', '').split('|'):
         if item and ':' in item:
@@ -900,9 +901,22 @@ def big_cases(rng, quick):
     n = 320
     H = [('LineString', [(0, i), (n + 1, i)]) for i in range(1, n + 1)]; V = [('LineString', [(i, 0), (i, n + 1)]) for i in range(1, n + 1)]
     out = [dict(op='node', p1=0.0, p2=0, A=('MultiLineString', H + V), B=None, tag='grid %dx%d (>100000 chain overlaps)' % (n, n), big=True)]
+    # one long zigzag (every segment is its own monotone chain, neighbours overlap: > 100000 chain overlaps in EVERY noding pass that sees it --
+    # the overlay noding pass, its validation pass, snap-rounding, the validity / simplicity noders, the buffer noder) and a short crossing line
+    m = 110000 + rng.randrange(0, 20000)
+    amp = rng.choice([1, 2, 3])
+    zz = ('LineString', [(i, amp if i % 2 else -amp) for i in range(m + 1)])
+    x0 = rng.randrange(m // 4, 3 * m // 4)
+    cr = ('LineString', [(x0 + 0.25, -3 * amp), (x0 + 0.75, 3 * amp)])
+    tag = 'zigzag %d segments + crossing line (>100000 chain overlaps per noding pass)' % m
+    out.append(dict(op=rng.choice(['union', 'symdifference']), p1=0.0, p2=0, A=zz, B=cr, tag=tag, big=True))
     if not quick:
         out.append(dict(op='relate', p1=0.0, p2=0, A=('MultiLineString', H), B=('MultiLineString', V), tag='grid lines %d vs %d' % (n, n), big=True))
         out.append(dict(op='intersects', p1=0.0, p2=0, A=('MultiLineString', H), B=('MultiLineString', V), tag='grid lines %d vs %d' % (n, n), big=True))
+        poly = ('Polygon', [[(0, -10 * amp)] + zz[1] + [(m, -10 * amp), (0, -10 * amp)]])
+        for op, A, B, p1 in [('intersection', zz, cr, 0.0), ('difference', zz, cr, 0.0), ('unaryunion', ('MultiLineString', [zz, cr]), None, 0.0), ('union_prec', zz, cr, 1.0),
+                             ('issimple', zz, None, 0.0), ('isvalid', poly, None, 0.0), ('buffer', zz, None, 1.0), ('relate', zz, cr, 0.0)]:
+            out.append(dict(op=op, p1=p1, p2=4, A=A, B=B, tag=tag, big=True))
     return out
 
 
@@ -1037,7 +1051,9 @@ def run(ctx):
         # time budget per case: an interrupted run plus a full re-run plus a leak check per k
         ms = int(d.get('ms', '0') or 0)
         kmax = max(24, int((45000 if ctx.quick else 150000) / (2.2 * ms + 12)))
-        ks = choose_ks(d['N'], min(cap, kmax) if not c.get('big') else (2 if ctx.quick else 8), ctx.rng)
+        # big inputs have few polls: enumerate them all (the grid noding case only at first / second / middle / last poll in quick)
+        ks = choose_ks(d['N'], min(cap, kmax), ctx.rng) if not c.get('big') else \
+            (sorted(set([1, 2, d['N'] // 2 + 1, d['N']]) & set(range(1, d['N'] + 1))) if (ctx.quick and c['op'] == 'node') else choose_ks(d['N'], 24, ctx.rng))
         if len(ks) < min(d['N'], cap): dist.setdefault('sub-sampled', {})[c['op']] = dist.setdefault('sub-sampled', {}).get(c['op'], 0) + 1
         plan.append((i, c, ks))
     # ---------------- phase 2: fault enumeration, one child process per case
@@ -1223,6 +1239,36 @@ def run(ctx):
                         ctx.broken.append(dict(kind='inventory', name='call graph misses %s -> %s' % (ent, s['func']),
                                                detail='checkpoint %s:%d was polled under %s at run time but is not statically reachable from it: the catch inventory may be incomplete' % (s['file'], s['line'], ent)))
                     if s: break
+    # ---------------- checkpoints that poll only every n-th iteration: which STAGES (users of the polling class) reached them
+    rare = {}
+    for f in inv['funcs']:
+        for l in f['polls']:
+            T = f['T']; a, b = f['body']
+            idx = next((j for j in range(a, b) if T[j][0] == 'GEOS_CHECK_FOR_INTERRUPTS' and T[j][1] == l), None)
+            if idx is not None and f['cls'] and any(T[j][0] == '%' for j in range(max(a, idx - 14), idx)):
+                rare[(f['file'], l)] = f['cls']
+    api_reach = inv['closure']([e['fid'] for e in inv['entries']], inv['edges'])
+    stage_note = {}
+    for (sf, sl), cls in rare.items():
+        users = sorted(set(g['cls'] for g in inv['funcs'] if g['cls'] and g['cls'] != cls and cls in g['idents'] and g['id'] in api_reach))
+        hit = set()
+        for i, c, ks in plan:
+            d1 = parse_out((results[i][1] or '').split('\n')[0])
+            for fr in (d1['ctx_list'] if d1 else []):
+                if not fr or not fr[0].startswith('g') or site_of_off.get(int(fr[0][1:], 16)) != (sf, sl): continue
+                rr = sym.resolve([(x[0], int(x[1:], 16)) for x in fr if x[0] in 'gc'])
+                names = [fn for x in fr if x[0] in 'gc' for (fn, _, _) in rr[(x[0], int(x[1:], 16))]]
+                for u in users:
+                    if any(('::' + u + '::') in nm or nm.startswith(u + '::') for nm in names): hit.add(u)
+        stage_note['%s:%d (%s)' % (sf, sl, cls)] = dict(stages_from_source=users, reached=sorted(hit), not_reached=sorted(set(users) - hit))
+        if not ctx.replay:
+            need = {'MCIndexNoder': (['EdgeNodingBuilder', 'FastNodingValidator', 'IteratedNoder'] if ctx.quick else
+                                     ['EdgeNodingBuilder', 'FastNodingValidator', 'IteratedNoder', 'PolygonTopologyAnalyzer', 'IsSimpleOp', 'SnapRoundingNoder', 'BufferBuilder']),
+                    'EdgeSetIntersector': ['RelateNG']}.get(cls, [])
+            for u in need:
+                if u in users and u not in hit:
+                    ctx.broken.append(dict(kind='generator', name='checkpoint coverage', detail='the every-n-th-iteration checkpoint %s:%d was never polled from stage %s (inputs too small for that noding pass)' % (sf, sl, u)))
+    ctx.notes['rare_checkpoints_by_stage'] = stage_note
     ctx.notes['checkpoint_sites_reached'] = sorted('%s:%d (%d cases)' % (f, l, n) for (f, l), n in reached.items())
     redges = {}
     for a, bs in inv['edges'].items():
